@@ -236,7 +236,41 @@ Definition m3u_rename_with g (fs : node) (base p : path) (newname : name) : outc
 Definition m3u_as_list (fs : node) (base : path) : outcome :=
   match resolve fs base with Ok b => Acts [TList b] | Raise e => Raised e | Diverge => Raised GLoop end.
 
+(* create(name): path = path_from_name(name.strip(), default_extension) -- one component,
+   separators replaced -- then `with self._open(path, "w")` INSIDE `try ... except OSError`:
+   a refusing guard makes _open raise BackendError (it escapes), an OSError from resolving
+   is logged and None is returned (nothing touched). *)
+Definition create_component (stripped_name ext : name) : name :=
+  map (fun c => if c =? 47 then 124 else c) stripped_name ++ ext.
+Definition m3u_create_with g (fs : node) (base : path) (n : name) : outcome :=
+  let p := base ++ [n] in
+  match g fs base p with
+  | Raise GOSError => Refused
+  | Raise e => Raised e
+  | Diverge => Raised GLoop
+  | Ok false => Raised GBackendError
+  | Ok true =>
+      match resolve fs (parent p) with
+      | Ok d => Acts [TCreateIn d; TEntry d (base_name p)]
+      | Raise GOSError => Refused
+      | Raise e => Raised e
+      | Diverge => Raised GLoop
+      end
+  end.
+
+Definition entries_at (fs : node) (r : path) : list (name * node) :=
+  match lookup_node fs r with Some (D es) => es | _ => [] end.
+
+(* as_list(): iterdir(playlists_dir); keep entries whose pathlib suffix is .m3u/.m3u8 and
+   for which is_file() holds (it follows symbolic links; errors count as "no") *)
+Definition listed_entry (fs : node) (b : path) (e : name * node) : bool :=
+  mem_str (suffix (fst e)) [M3U; M3U8] &&
+  match resolve fs (b ++ [fst e]) with Ok r => is_file fs r | _ => false end.
+Definition m3u_as_list_names (fs : node) (base : path) : res gexn (list name) :=
+  rbind (resolve fs base) (fun b => Ok (map fst (filter (listed_entry fs b) (entries_at fs b)))).
+
 Definition m3u_delete := m3u_delete_with m3u_guard.
+Definition m3u_create := m3u_create_with m3u_guard.
 Definition m3u_lookup := m3u_lookup_with m3u_guard.
 Definition m3u_save := m3u_save_with m3u_guard.
 Definition m3u_rename := m3u_rename_with m3u_guard.
@@ -263,8 +297,6 @@ Definition inside_any (fs : node) (mdirs : list path) (p : path) : res gexn bool
 Inductive kind := KDir | KTrack.
 Definition ref := (kind * name * path)%type.     (* type, name, resolved child *)
 
-Definition entries_at (fs : node) (r : path) : list (name * node) :=
-  match lookup_node fs r with Some (D es) => es | _ => [] end.
 
 
 (* one directory entry of browse(); None: filtered out *)
@@ -313,6 +345,8 @@ Definition gexn_code (e : gexn) : Z :=
   match e with GLoop => 1 | GOSError => 2 | GValueError => 3 | GBackendError => 4 end.
 Definition guard_code (r : res gexn bool) : Z :=
   match r with Ok true => 10 | Ok false => 11 | Raise e => gexn_code e | Diverge => 1 end.
+Definition same_names (a b : list name) : bool :=
+  forallb (fun x => mem_str x b) a && forallb (fun x => mem_str x a) b.
 Definition subset_touch (a b : list touch) : bool := forallb (fun x => existsb (touch_eqb x) b) a.
 Definition ref_eqb (a b : ref) : bool :=
   let '(k, n, p) := a in let '(k', n', p') := b in
